@@ -6,8 +6,21 @@ FUNCS = [('h_add', False), ('h_sub', False), ('h_addsub', False), ('h_cmp', Fals
          ('h_ms', True), ('h_us', True)]
 
 
+CPP = ['cpp_h_cpp_add_R1', 'cpp_h_cpp_sub_R1', 'cpp_h_cpp_cmp_R1']
+
+
+def cpp_scenarios(ctx):
+    from checks import scen
+    S = scen.all_scenarios()
+    return {n: S[n] for n in CPP}
+
+
 def jobs(ctx):
     js = []
+    from lib import e3
+    for sc in cpp_scenarios(ctx).values():      # the C++ unit through the IR route (clang++ -> LLVM IR -> seqcc -> CBMC)
+        sc.witness = True
+        js += e3.make_jobs(ctx, sc)
     for f, smt in FUNCS:
         js.append(e1.make_job(ctx, f, 'C18/time_arith.c', UNITS, f, unwind=2, defines=['HFUNC=%s' % f], timeout=600, cvc5_int=smt,
                               desc='full-width symbolic operands' + (' (cvc5 --solve-bv-as-int=sum: /1000, %1000, *1000000 stall every SAT back end, measured 60 s cap)' if smt else '')))
@@ -17,22 +30,25 @@ def jobs(ctx):
 
 
 def confirm(ctx, job, failure):
+    if job.meta.get('scenario'):
+        from lib import e3
+        return e3.confirm(ctx, job, failure, cpp_scenarios(ctx))
     return e1.confirm(ctx, job, failure)
 
 
 def info(ctx):
     return {
-        'engine': 'E1 sequential CBMC on the real translation units (C build)',
+        'engine': 'E1 sequential CBMC on the real translation units (C build) + IR route for the C++ unit (clang++-14 -> LLVM IR -> seqcc -> CBMC)',
         'explanation': 'platform/posix/src/time_rep.c and internal/time_internal.c compiled by goto-cc; operands are full-width symbolic: tv_sec any int64 with |sec| <= 2^61 for add/sub '
                        '("barring overflow of the seconds field"), any int64 for cmp, 0 <= tv_nsec < 1e9, every 32-bit ms/us argument. Reference = exact integer arithmetic on '
                        'sec*1e9+nsec, stated on the normalized pair (carry/borrow explicit; the pair representation is a bijection on normalized values). Asserted: results normalized, '
                        'add/sub exact, (a+b)-b == a and (a-b)+b == a, cmp = integer order, antisymmetric, transitive, consistent with sign of a-b, zero <= t <= no_deadline for t >= 0, '
                        'ms/us/s_ns yield the stated duration. Signed-overflow checks of CBMC are on inside the library code.',
-        'units': UNITS,
+        'units': UNITS + ['platform/c++11/src/time_rep_timespec.cc (C++ build: nsync_time_add / sub / cmp / s_ns, zero, no_deadline via harness/e3/time_cpp.cc)'],
         'functions': ['nsync_time_add', 'nsync_time_sub', 'nsync_time_cmp', 'nsync_time_ms', 'nsync_time_us', 'nsync_time_s_ns', 'nsync_time_zero', 'nsync_time_no_deadline'],
         'bounds': {'tv_sec': 'all int64 (cmp, bounds); |sec| <= 2^61 (add, sub)', 'tv_nsec': '0..999999999', 'ms_us': 'all 2^32 values', 'loops': 'none'},
         'stubs': [],
         'assumptions': ['operands normalized (0 <= tv_nsec < 1e9)', '|tv_sec| <= 2^61 for add/sub so that no intermediate sum overflows'],
-        'outside': ['the C++ build (platform/c++11/src/time_rep_timespec.cc): same function bodies textually; checked via the IR route in job set cpp_* when the translator is available',
+        'outside': ['nsync_time_ms / nsync_time_us in the C++ build (same internal/time_internal.c source, compiled as C++; not re-run)', 'nsync_from_time_point_ / nsync_to_time_point_ (std::chrono conversions)',
                     'seconds beyond +-2^61 for add/sub', 'NSYNC_USE_INT_TIME / floating / debug time representations (not built by CMake)'],
     }
